@@ -2,7 +2,7 @@
 scenarios on real processes; no Lean side)."""
 from harness.corecheck import make
 from harness.props import live_core
-PARTS = [make("C02", ["CircusProofs/Props/C02.lean", "CircusProofs/Props/C02Run.lean"],
+PARTS = [make("C02", ["CircusProofs/Props/C02.lean", "CircusProofs/Props/C02Run.lean", "CircusProofs/Props/C02Run2.lean"],
               ["CircusProofs/Core/Pres.lean", "CircusProofs/Core/Generic.lean", "CircusProofs/Core/Conv.lean",
-               "CircusProofs/Core/StopRun.lean"]),
+               "CircusProofs/Core/StopRun.lean", "CircusProofs/Core/StopRunG.lean"]),
          live_core]
